@@ -245,6 +245,9 @@ func (vc *VC) loopHead(fr *Frame, li *loopInfo, b *ssa.BasicBlock) {
 			locs = append(locs, vc.modLocs(fi, []*ModItem{m}, args, pre)...)
 		}
 	} else if fr.isRoot {
+		if vc.rootModsAll {
+			vc.fail("loop %d of %s: a function without frame checking (noframe) must declare `loop %d modifies ...`", li.ord, fr.fn.Name(), li.ord)
+		}
 		locs = append(locs, vc.rootMods...)
 	} else {
 		locs = vc.modLocs(fi, fc.Modifies, vc.clauseArgsFrame(fr), pre)
